@@ -16,3 +16,4 @@ CONSTANTS
   REORIENT = FALSE
   BIGSET = TRUE
   SAMPLE = 41
+  STREAMLEN = 0
